@@ -191,8 +191,15 @@ func checkCut(c *Case, s *gen.Stream, ref cutRun, cov *Cov) []*Violation {
 	// forwarded bytes: a prefix of what the uncut stream forwards
 	if !bytes.HasPrefix(ref.res.Fwd, res.Fwd) {
 		known := ""
-		if bytes.HasPrefix(res.Fwd, ref.res.Fwd) && len(frag) > 0 && bytes.Equal(res.Fwd[len(ref.res.Fwd):], frag) && isDumpOpening(s, fragStart) {
-			known = "KF-2"
+		// KF-2: the cut falls inside the line(s) that open a dump; what is
+		// forwarded in excess is exactly the unterminated beginning of that dump
+		if ds, ok := dumpOpeningStart(s, fragStart); ok && len(frag) > 0 && bytes.HasPrefix(res.Fwd, ref.res.Fwd) {
+			sur := res.Fwd[len(ref.res.Fwd):]
+			// either including the fragment (it was passed through) or up to it
+			// (it was rejected with a parse error and sits in the remainder)
+			if bytes.Equal(sur, b[ds:cut.K]) || bytes.Equal(sur, b[ds:fragStart]) {
+				known = "KF-2"
+			}
 		}
 		add("forward-prefix", known, fmt.Sprintf("forwarded %s is not a prefix of what the uncut stream forwards (%s); surplus %s", Clip(res.Fwd, 80), Clip(ref.res.Fwd, 80), Clip(surplus(res.Fwd, ref.res.Fwd), 80)))
 	}
@@ -289,18 +296,23 @@ func surplus(got, ref []byte) []byte {
 	return got[d:]
 }
 
-// isDumpOpening: the line starting at off is the first goroutine header of a
-// goroutine dump, or one of the two header lines of a race report.
-func isDumpOpening(s *gen.Stream, off int) bool {
+// dumpOpeningStart: the line starting at off is the first goroutine header of
+// a goroutine dump, or one of the two header lines of a race report. Returns
+// the offset at which that dump starts.
+func dumpOpeningStart(s *gen.Stream, off int) (int, bool) {
 	for _, d := range s.Dumps {
 		if off == d.Start {
-			return true
+			return d.Start, true
 		}
-		if d.Race && d.FirstLine+1 < len(s.Lines) && off == s.Lines[d.FirstLine+1].Start {
-			return true
+		// a race report is only confirmed by its third line (the first
+		// operation header)
+		for k := 1; k <= 2; k++ {
+			if d.Race && d.FirstLine+k < len(s.Lines) && off == s.Lines[d.FirstLine+k].Start {
+				return d.Start, true
+			}
 		}
 	}
-	return false
+	return 0, false
 }
 
 func checkC10Loop(c *Case, cov *Cov) []*Violation {
